@@ -145,3 +145,31 @@ func cmdScanModels(args []string) error {
 	}
 	return nil
 }
+
+// scan-calib: the reference validator's verdict (validate.AgainstSchema, which C16 names as oracle) on
+// (model, value) pairs against the raw scanned document.
+func init() { cmds["scan-calib"] = cmdScanCalib }
+
+func cmdScanCalib(args []string) error {
+	fs := flag.NewFlagSet("scan-calib", flag.ExitOnError)
+	raw := fs.String("raw", "", "raw scanned document")
+	inst := fs.String("instances", "", "ndjson {model, value(tagged)}")
+	_ = fs.Parse(args)
+	doc, err := loadsSpec(*raw)
+	if err != nil {
+		return err
+	}
+	rows, err := readNDJSON(*inst)
+	if err != nil {
+		return err
+	}
+	for i, r := range rows {
+		sch, ok := doc.Spec().Definitions[r["model"].(string)]
+		if !ok {
+			continue
+		}
+		valid := refValidate(&sch, doc.Spec(), roundTrip(taggedToJSON(r["value"])))
+		fmt.Println(string(mustJSON(obj{"i": i, "valid": valid})))
+	}
+	return nil
+}
